@@ -235,7 +235,7 @@ type summary struct {
 	Worker      int               `json:"worker"`
 	Runs        int               `json:"runs"`
 	Steps       int64             `json:"steps"`
-	SimTimeNs   int64             `json:"sim_time_ns"`
+	SimTimeS    float64           `json:"sim_time_s"`
 	WallS       float64           `json:"wall_s"`
 	Nontrivial  int               `json:"nontrivial"`
 	Probes      map[string]int    `json:"probes"`
@@ -446,7 +446,7 @@ func explore(prop, tier string) int {
 				gotSummary = true
 				agg.Runs += s.Runs
 				agg.Steps += s.Steps
-				agg.SimTimeNs += s.SimTimeNs
+				agg.SimTimeS += s.SimTimeS
 				agg.Nontrivial += s.Nontrivial
 				agg.Passthrough += s.Passthrough
 				agg.Tasks += s.Tasks
@@ -510,7 +510,7 @@ func explore(prop, tier string) int {
 
 	wall := time.Since(t0).Seconds()
 	fmt.Printf("check %s tier=%s seed=%d: %d simulated runs, %d scheduling decisions, %.1fs simulated, %d non-trivial, %d distinct non-trivial, %.1fs wall\n",
-		prop, tier, seed, agg.Runs, agg.Steps, float64(agg.SimTimeNs)/1e9, agg.Nontrivial, len(distinct), wall)
+		prop, tier, seed, agg.Runs, agg.Steps, agg.SimTimeS, agg.Nontrivial, len(distinct), wall)
 
 	exit := 0
 	knownSeen := map[string]int{}
@@ -691,7 +691,7 @@ func writeEvidence(prop, tier string, seed uint64, meta propMeta, agg summary, d
 			"scheduler_decisions":         agg.Steps,
 			"max_decisions_in_one_run":    agg.MaxSteps,
 			"goroutines_scheduled":        agg.Tasks,
-			"simulated_time_s":            float64(agg.SimTimeNs) / 1e9,
+			"simulated_time_s":            agg.SimTimeS,
 			"runs_per_hour":               runsPerHour,
 			"workers":                     workers,
 			"budget_s":                    budget,
